@@ -51,16 +51,26 @@ def c04(tier, seed):
 def c05(tier, seed):
     from . import exact
     res = core.Result("C05", tier, seed)
-    n = 100 if tier == "quick" else 3000
-    job = exact.cfg_job("C05", seed, n)
-    rejects = rel.drive_and_validate("C05", tier, seed, job, res, nshards=12 if tier == "quick" else 16,
-                                     module="Trace_Cfg", timeout=900 if tier == "quick" else 7200)
-    for rj in rejects:
-        res.violation(rel.signature(rj), rj["replay"])
+    q = tier == "quick"
+    parts = [("C05", "ebnf", exact.cfg_job("C05", seed, 90 if q else 3000), "Trace_Cfg", 10 if q else 16),
+             ("C05p", "parametric", exact.pcfg_job("C05", seed, 40 if q else 1500), "Trace_CfgP", 6 if q else 16)]
+
+    def go(p):
+        tag, part, job, module, ns = p
+        return part, rel.drive_and_validate(tag, tier, seed, job, res, nshards=ns, module=module,
+                                            timeout=900 if q else 7200)
+
+    for part, rejects in core.parallel(go, parts, workers=2 if q else 1):
+        for rj in rejects:
+            res.violation(dict(rel.signature(rj), part=part), rj["replay"])
     rel.negative_control("C05", res, module="Trace_Cfg")
-    res.cov["rule"] = ("episodes = random walks of the real engine over a random / hand-written EBNF grammar of the "
-                       "non-confusable fragment and a vocabulary of tokens spanning its terminals; TLC recomputes every "
-                       "mask / verdict / forced byte with Earley item sets (spec/Cfg.tla, Trace_Cfg.tla)")
+    rel.negative_control("C05p", res, module="Trace_CfgP")
+    res.cov["rule"] = ("episodes = random walks of the real engine over (a) a random / hand-written EBNF grammar of the "
+                       "non-confusable fragment, (b) a random parametric grammar of the shapes in docs/parametric.md "
+                       "(permutation, at-least-once, bounded counters, bounded a*b*, pick k of n, countdown with "
+                       "decr/bit_or/bit_and/not/or, nested with nullable instances), each with a vocabulary of tokens spanning "
+                       "its terminals; TLC recomputes every mask / verdict with Earley item sets over bytes "
+                       "(spec/Cfg.tla + Trace_Cfg.tla; spec/CfgP.tla + Trace_CfgP.tla, items carry the parameter value)")
     return res
 
 
@@ -308,6 +318,21 @@ SPEC_OF = {"C01": ("Trace_EngineRel", "Trace_EngineRel_all.cfg"), "C10": ("Trace
 def replay(prop, path):
     """Re-validate a saved replay episode with the specification that rejected it."""
     module, cfg = SPEC_OF.get(prop, ("Trace_EngineRel", "Trace_EngineRel_all.cfg"))
+    # properties decided by several trace specifications: the Init event says which one recorded the episode
+    try:
+        init = json.loads(core.read_lines(path)[0])
+    except Exception:
+        init = {}
+    if init.get("ev") == "Init":
+        gid = str(init.get("gid", ""))
+        if "pcfg" in init:
+            module, cfg = "Trace_CfgP", None
+        elif "rx" in init:
+            module, cfg = "Trace_Regex", None
+        elif "cfg" in init and gid.startswith("tok"):
+            module, cfg = "Trace_Tok", "Trace_Tok.cfg"
+        elif "cfg" in init:
+            module, cfg = "Trace_Cfg", None
     r = core.tlc_trace(module, path, cfg=cfg, tag=f"replay-{prop}")
     if r["accepted"]:
         print("replay accepted by the specification")
